@@ -9,6 +9,15 @@ CHECKS = {
          "Every polygon / op string in the stated finite alphabets (triangles, quads, 5-6-gons, two-subpath paths, all M/L/Z strings to depth 4-5, far-away triangles, degenerate surfaces) is executed on the real code under both winding rules and both antialias modes and compared pixel by pixel with an exact integer model of the property; a pass is a coverage statement over that space, not a sample.",
          "Trusts the integer reference model (mc/src/model/rast.rs); admits both roundings within the 16.16 slope drift bound of a rounding boundary; bounded to the listed grids and surfaces <= 3x3.",
          "DESIGN.md section 4, C01"),
+
+ "C02": ("bounded exhaustive enumeration of single drawing calls over clip/layer/transform contexts, every blend mode and source kind, each transition checked by a per-pixel step oracle",
+         "Every combination of the stated finite alphabets (surface, destination, transform, clip/layer context, shape, call, 28 blend modes, source kinds, alphas, both aa modes) is executed on the real code; after every call all buffers (surface and every open layer, read through the verification hooks) are compared with their state before: pixels with zero reference coverage, outside any clip rectangle, with zero clip-path coverage or in a non-destination buffer must be bit-identical.",
+         "Zero coverage is decided by an independent opaque-white reference fill of the same shape (validated by C01/C04/C08); clip state is read through cfg(raqote_verif) accessors; bounded to surfaces <= 6x5 and the listed shapes.",
+         "DESIGN.md section 4, C02"),
+ "C03": ("bounded exhaustive enumeration of drawing calls with per-pixel distinct inputs, each transition checked against a per-pixel reference built from sw_composite's public primitives",
+         "Scenes give every pixel its own destination value, coverage, clip coverage and source colour; all 28 modes, all source kinds with decidable colour, alphas, all 256 mask bytes, every mask offset, pop_layer with every blend and opacity; every pixel of every buffer after every call must equal an admissible value of M-PIX for that pixel's own inputs (exactly blend(src,dst) at full weight, unchanged at zero weight).",
+         "Blend formulas are sw_composite's public primitives (trusted as definition); two compositions of coverage x clip coverage are admitted for partial weights; source colours of non-constant gradients and non-integer image sampling are left to C12/C13.",
+         "DESIGN.md section 4, C03"),
 }
 NOT_YET = "check not built yet in this round (design in DESIGN.md section 4); will be claimed once its explorer exists"
 
